@@ -12,8 +12,10 @@ import (
 	"fmt"
 	"io"
 	"math/rand"
+	"reflect"
 	"sort"
 	"sync"
+	"unsafe"
 
 	"github.com/lni/dragonboat/v4/client"
 	"github.com/lni/dragonboat/v4/config"
@@ -30,6 +32,7 @@ import (
 	"github.com/lni/dragonboat/v4/raftio"
 	pb "github.com/lni/dragonboat/v4/raftpb"
 	sm "github.com/lni/dragonboat/v4/statemachine"
+	"github.com/lni/goutils/random"
 )
 
 const nxShard = 1
@@ -349,7 +352,27 @@ func nxPeers(n int) map[uint64]string {
 	return peers
 }
 
+// nxRand replaces the process-wide random source of dragonboat
+// (goutils/random.LockGuardedRand: ReadIndex contexts, config change and
+// snapshot request keys, election jitter) by a deterministic sequence that is
+// restarted for every cluster, so that replaying an event path reproduces the
+// same identifiers.
+type nxRand struct{ n uint64 }
+
+func (r *nxRand) Uint64() uint64 { r.n++; return r.n*0x9E3779B97F4A7C15 | 1 }
+func (r *nxRand) Int63() int64   { return int64(r.Uint64() >> 1) }
+func (r *nxRand) Seed(int64)     {}
+
+func nxResetRandom() {
+	lr := random.NewLockedRand()
+	f := reflect.ValueOf(lr).Elem().FieldByName("source")
+	var src rand.Source64 = &nxRand{}
+	reflect.NewAt(f.Type(), unsafe.Pointer(f.UnsafeAddr())).Elem().Set(reflect.ValueOf(&src).Elem())
+	random.LockGuardedRand = lr
+}
+
 func newNxCluster(cfg *nxCfg) *nxCluster {
+	nxResetRandom()
 	c := &nxCluster{cfg: cfg, byID: map[uint64]*nxHost{}, leaderOf: map[uint64]uint64{}, voteOf: map[[2]uint64]uint64{},
 		applied: map[uint64]string{}, completedW: map[uint64]bool{}, lazy: map[uint64]bool{}, scriptHold: map[uint64]bool{}, nextVal: 100}
 	c.pool = &sync.Pool{}
